@@ -2318,3 +2318,293 @@ def emitted_actions(fdef, limit=4096):
                 raise AnalysisError(f"emitted statement outside the enumerated subset: {norm(st)[:60]}")
     block(fdef.body, {}, True)
     return out
+
+
+# ---------------------------------------------------------------------------
+# Concrete-shape mode of the generator evaluator (used by the grid rule): the field table is a concrete
+# dict name -> Shape, so every kind test, len(), range() and dict lookup is decided; `for` / `while` loops
+# over concrete sequences are unrolled, recursive helpers are really recursed, and the result is the concrete
+# source text of the generated function(s) for that shape.  This is what lets an ITERATIVE generator (a loop
+# over list dimensions instead of a recursion per element) be judged at all.  Anything that stays symbolic
+# falls back to the symbolic machinery or raises AnalysisError.
+ShapeV = _vclass('ShapeV', 'shape')
+
+
+def _all_items(x):
+    segs = x.segs if isinstance(x, (ListObj, SeqV, DictV)) else None
+    return segs is not None and all(isinstance(s, Item) for s in segs)
+
+
+class ConcreteEval(GenEval):
+    MAX_DEPTH = 40
+    MAX_ITER = 512
+
+    def __init__(self, module):
+        super().__init__(module, kind=None, field_loops_focus=False)
+        self.iters = 0
+
+    # -- decided facts ---------------------------------------------------------------
+    def truth(self, v):
+        if isinstance(v, KindTest):
+            x = unlin(v.v)
+            if isinstance(x, ShapeV):
+                return x.shape.kind == v.kind
+            if isinstance(x, (SeqV, DictV)):
+                return v.kind == 'list' and isinstance(x, SeqV)
+            if isinstance(x, (Const, Lin, Tmpl)):
+                return False
+            return None
+        if isinstance(v, Cmp) and v.op in ('Eq', 'NotEq', 'Is', 'IsNot'):
+            a, b = unlin(v.l), unlin(v.r)
+            if self.is_concrete(a) and self.is_concrete(b):
+                same = (tmpl_text(a) == tmpl_text(b)) if tmpl_text(a) is not None and tmpl_text(b) is not None else a == b
+                return same if v.op in ('Eq', 'Is') else not same
+        return super().truth(v)
+
+    @staticmethod
+    def is_concrete(v):
+        if isinstance(v, (ShapeV, Const)):
+            return True
+        if isinstance(v, Lin):
+            return v.is_const
+        if isinstance(v, Tmpl):
+            return tmpl_text(v) is not None
+        if isinstance(v, Tup):
+            return all(ConcreteEval.is_concrete(x) for x in v.items)
+        return False
+
+    def fields_obj(self, sh):
+        d = DictObj()
+        for n, f in sh.fields:
+            d.segs.append(Item(Tup((Const(n), ShapeV(f)))))
+        return d
+
+    # -- calls: real recursion --------------------------------------------------------
+    def call(self, fobj, args, kwargs, star_ok=True):
+        fdef = fobj.fdef
+        self.depth += 1
+        if self.depth > self.MAX_DEPTH:
+            raise AnalysisError(f"recursion too deep evaluating {fdef.name} on a grid shape")
+        try:
+            env = Env(self, fobj.env)
+            self.bind_params(fdef, args, kwargs, env, fobj.env)
+            sig = self.exec_block(fdef.body, env)
+        finally:
+            self.depth -= 1
+        if sig is not None and sig[0] in ('break', 'continue'):
+            raise AnalysisError(f"loop control escaped function {fdef.name}")
+        return self.finish(sig, fdef.name)
+
+    # -- loops: unrolled over concrete sequences ---------------------------------------------
+    def concrete_seq(self, v):
+        """list of element values if v is a concrete sequence, else None"""
+        if isinstance(v, (ListObj, SeqV)) and not isinstance(v, DictObj) and _all_items(v):
+            return [s.v for s in v.segs]
+        if isinstance(v, (DictObj, DictV)) and _all_items(v):
+            return [s.v.items[0] for s in v.segs]
+        if isinstance(v, ShapeV) and v.shape.kind == 'list':
+            return [ShapeV(v.shape.elem)] * v.shape.n
+        if isinstance(v, Tup):
+            return list(v.items)
+        return None
+
+    def exec_for(self, st, env):
+        seq = self.concrete_seq(self.ev(st.iter, env))
+        if seq is None:
+            return super().exec_for(st, env)
+        for x in seq:
+            self.iters += 1
+            if self.iters > self.MAX_ITER * 8:
+                raise AnalysisError("generator loops too long on a grid shape")
+            self.assign(st.target, x, env)
+            sig = self.exec_block(st.body, env)
+            if sig is None or sig[0] == 'continue':
+                continue
+            if sig[0] == 'break':
+                return None
+            if sig[0] == 'partial':
+                raise AnalysisError("undecided condition inside a concrete loop")
+            return sig
+        return self.exec_block(st.orelse, env) if st.orelse else None
+
+    def exec_while(self, st, env):
+        for _ in range(self.MAX_ITER):
+            t = self.truth(self.ev(st.test, env))
+            if t is None:
+                return super().exec_while(st, env)
+            if not t:
+                return self.exec_block(st.orelse, env) if st.orelse else None
+            sig = self.exec_block(st.body, env)
+            if sig is None or sig[0] == 'continue':
+                continue
+            if sig[0] == 'break':
+                return None
+            if sig[0] == 'partial':
+                raise AnalysisError("undecided condition inside a concrete loop")
+            return sig
+        raise AnalysisError(f"while loop does not terminate on a grid shape: {norm(st.test)[:50]}")
+
+    def _comp(self, gens, env, emit):
+        g = gens[0]
+        seq = self.concrete_seq(self.ev(g.iter, env))
+        if seq is None:
+            return super()._comp(gens, env, emit)
+        out = []
+        for x in seq:
+            inner = Env(self, env)
+            self.assign(g.target, x, inner)
+            ts = [self.truth(freeze(self.ev(c, inner))) for c in g.ifs]
+            if any(t is None for t in ts):
+                raise AnalysisError("undecided filter in a concrete comprehension")
+            if not all(ts):
+                continue
+            if len(gens) > 1:
+                out.extend(self._comp(gens[1:], inner, emit))
+            else:
+                out.append(emit(inner))
+        return tuple(out)
+
+    # -- expressions -------------------------------------------------------------------------
+    def ev_Attribute(self, e, env):
+        base = self.ev(e.value, env)
+        if isinstance(base, ShapeV):
+            sh = base.shape
+            if e.attr == 'nbits':
+                return Lin(sh.nbits)
+            if e.attr == '__name__':
+                return Const(repr(sh))
+            if e.attr == '__bitstruct_fields__' and sh.kind == 'struct':
+                return self.fields_obj(sh)
+        return super().ev_Attribute(e, env)
+
+    def ev_Subscript(self, e, env):
+        base = self.ev(e.value, env)
+        if isinstance(base, ShapeV) and base.shape.kind == 'list' and not isinstance(e.slice, ast.Slice):
+            i = self.ev(e.slice, env)
+            if isinstance(i, Lin) and i.is_const and -base.shape.n <= i.const < base.shape.n:
+                return ShapeV(base.shape.elem)
+            raise AnalysisError(f"index {norm(e.slice)} out of range of a grid shape")
+        if isinstance(base, DictObj) and _all_items(base) and not isinstance(e.slice, ast.Slice):
+            k = freeze(self.ev(e.slice, env))
+            if self.is_concrete(k):
+                for s_ in reversed(base.segs):
+                    if self.truth(Cmp('Eq', s_.v.items[0], k)):
+                        return s_.v.items[1]
+                raise AnalysisError(f"key {show(k)} missing in {norm(e.value)} on a grid shape")
+        if isinstance(base, (ListObj, SeqV)) and not isinstance(base, DictObj) and _all_items(base):
+            segs = list(base.segs)
+            if isinstance(e.slice, ast.Slice):
+                f = lambda x: None if x is None else self.ev(x, env)
+                lo, hi, stp = f(e.slice.lower), f(e.slice.upper), f(e.slice.step)
+                if all(x is None or (isinstance(x, Lin) and x.is_const) for x in (lo, hi, stp)):
+                    g = lambda x: None if x is None else x.const
+                    return ListObj(segs[slice(g(lo), g(hi), g(stp))])
+            else:
+                i = self.ev(e.slice, env)
+                if isinstance(i, Lin) and i.is_const and -len(segs) <= i.const < len(segs):
+                    return segs[i.const].v
+        return super().ev_Subscript(e, env)
+
+    def ev_Compare(self, e, env):
+        if len(e.ops) == 1 and isinstance(e.ops[0], (ast.In, ast.NotIn)):
+            l = freeze(self.ev(e.left, env))
+            r = self.ev(e.comparators[0], env)
+            seq = self.concrete_seq(r)
+            if seq is not None and self.is_concrete(l):
+                hit = any(self.truth(Cmp('Eq', x, l)) for x in seq)
+                return Const(hit if isinstance(e.ops[0], ast.In) else not hit)
+        return super().ev_Compare(e, env)
+
+    def builtin(self, name, args, kwargs, node):
+        fa = [freeze(a) for a in args]
+        if name == 'range' and not kwargs and all(isinstance(a, Lin) and a.is_const for a in fa):
+            return ListObj(Item(Lin(i)) for i in range(*[a.const for a in fa]))
+        if name == 'len' and len(fa) == 1:
+            seq = self.concrete_seq(args[0])
+            if seq is not None:
+                return Lin(len(seq))
+            t = tmpl_text(fa[0])
+            if t is not None:
+                return Lin(len(t))
+        if name in ('reversed', 'list', 'tuple') and len(args) == 1:
+            seq = self.concrete_seq(args[0])
+            if seq is not None:
+                return ListObj(Item(x) for x in (reversed(seq) if name == 'reversed' else seq))
+        if name == 'enumerate' and len(args) == 1:
+            seq = self.concrete_seq(args[0])
+            if seq is not None:
+                return ListObj(Item(Tup((Lin(i), x))) for i, x in enumerate(seq))
+        if name == 'getattr' and len(fa) == 2 and isinstance(fa[0], ShapeV):
+            t = tmpl_text(fa[1])
+            if t == '__bitstruct_fields__' and fa[0].shape.kind == 'struct':
+                return self.fields_obj(fa[0].shape)
+            if t == 'nbits':
+                return Lin(fa[0].shape.nbits)
+        if name == 'sorted' and len(args) == 1:
+            seq = self.concrete_seq(args[0])
+            if seq is not None and all(self.is_concrete(x) for x in seq):
+                return ListObj(Item(x) for x in sorted(seq, key=show))
+        return super().builtin(name, args, kwargs, node)
+
+    def method(self, recv, name, args, kwargs, node):
+        if isinstance(recv, (DictObj, DictV)) and _all_items(recv) and name in ('items', 'keys', 'values') and not args:
+            pick = {'items': lambda t: t, 'keys': lambda t: t.items[0], 'values': lambda t: t.items[1]}[name]
+            return ListObj(Item(pick(s_.v)) for s_ in recv.segs)
+        if name == 'join' and len(args) == 1:
+            sep = tmpl_text(freeze(recv))
+            seq = self.concrete_seq(args[0])
+            if sep is not None and seq is not None and all(tmpl_text(x) is not None for x in seq):
+                return Const(sep.join(tmpl_text(x) for x in seq))
+        return super().method(recv, name, args, kwargs, node)
+
+    def binop(self, op, l, r, node):
+        if isinstance(op, (ast.FloorDiv, ast.Mod)):
+            a, b = freeze(l), freeze(r)
+            if isinstance(a, Lin) and isinstance(b, Lin) and a.is_const and b.is_const and b.const:
+                return Lin(a.const // b.const if isinstance(op, ast.FloorDiv) else a.const % b.const)
+        if isinstance(op, ast.Mult):
+            a, b = freeze(l), freeze(r)
+            if isinstance(a, Lin) and isinstance(b, Lin) and a.is_const and b.is_const:
+                return Lin(a.const * b.const)
+        return super().binop(op, l, r, node)
+
+
+def eval_concrete(module, fdef, fields, extra=None):
+    """run a generator for a concrete field table (ordered name -> Shape); returns the list of generated functions as
+    dicts(name, args, body) and the other (non-function) results, in the order returned"""
+    ev = ConcreteEval(module)
+    env = Env(ev)
+    table = DictObj()
+    for n, sh in fields.items():
+        table.segs.append(Item(Tup((Const(n), ShapeV(sh)))))
+    params = [a.arg for a in fdef.args.args]
+    for pname in params:
+        if extra and pname in extra:
+            env.set(pname, extra[pname])
+    unbound = [pname for pname in params if not env.has(pname)]
+    if len(unbound) != 1:
+        raise AnalysisError(f"{fdef.name}: cannot tell which parameter is the field table ({unbound})")
+    env.set(unbound[0], table)
+    sig = ev.exec_block(fdef.body, env)
+    res = ev.finish(sig, fdef.name) if sig is not None else None
+    items = res.items if isinstance(res, Tup) else (res,)
+    out = []
+    for it in items:
+        if isinstance(it, Fn):
+            def texts(seq, what):
+                if not isinstance(seq, SeqV) or not _all_items(seq):
+                    raise AnalysisError(f"{fdef.name}: {what} of the generated function is not concrete on a grid shape")
+                ts = [tmpl_text(s_.v) for s_ in seq.segs]
+                if any(t is None for t in ts):
+                    bad = [show(s_.v) for s_ in seq.segs if tmpl_text(s_.v) is None][0]
+                    raise AnalysisError(f"{fdef.name}: emitted text {bad[:60]} is not concrete on a grid shape")
+                return ts
+            name = tmpl_text(it.name)
+            if name is None:
+                raise AnalysisError(f"{fdef.name}: computed function name")
+            out.append(dict(name=name, args=texts(it.args, 'the parameter list'), body=texts(it.body, 'the body')))
+        elif isinstance(it, Lin) and it.is_const:
+            out.append(it.const)
+        else:
+            out.append(it)
+    return out, ev
